@@ -36,7 +36,7 @@ def tag_of(module: str) -> str:
 	return module.replace('.', '_')
 
 
-def build_module(module: str, cls: str, vtype: str, lit: str, deps: list[dict[str, Any]], *, extra_fn: bool = False, extra_field: bool = False, with_enum: bool = False, alias: bool = False, dict_local: bool = False, syntax_error: bool = False, wide: bool = False, doc: bool = False, generic: bool = False) -> str:
+def build_module(module: str, cls: str, vtype: str, lit: str, deps: list[dict[str, Any]], *, extra_fn: bool = False, extra_field: bool = False, with_enum: bool = False, alias: bool = False, dict_local: bool = False, syntax_error: bool = False, wide: bool = False, doc: bool = False, generic: bool = False, box: bool = False) -> str:
 	"""deps: [{'module', 'cls', 'tag', 'deps': [ {'tag','cls'} ... ]}] — what this variant imports."""
 	tag = tag_of(module)
 	lines: list[str] = []
@@ -44,6 +44,8 @@ def build_module(module: str, cls: str, vtype: str, lit: str, deps: list[dict[st
 		lines.append('from enum import Enum')
 	if generic:
 		lines.append('from typing import Generic, TypeVar')
+	if box:
+		lines.append('from src.gbox import GBox')
 	for d in deps:
 		name = d['cls']
 		if alias and name == cls:
@@ -128,6 +130,10 @@ def build_module(module: str, cls: str, vtype: str, lit: str, deps: list[dict[st
 		lines.append("\ttxt = '''first")
 		lines.append("second line'''")
 		lines.append('\ttxt2 = txt')
+	if box:
+		# a lambda passed to a method of a generic class taking Callable[[T], None]; instantiations differ between modules
+		lines.append(f'\tbx = GBox[{vtype}]()')
+		lines.append('\tbx.each(lambda e: print(e))')
 	if generic:
 		lines.append(f'\thh = IntHolder_{tag}(k)')
 		lines.append('\thv = hh.value')
@@ -167,7 +173,7 @@ def build_module(module: str, cls: str, vtype: str, lit: str, deps: list[dict[st
 	return '\n'.join(lines) + '\n'
 
 
-def gen_pool(rng: random.Random, shape: str | None = None, n_variants: int | None = None, allow_invalid: bool = True, wide_p: float = 0.4, doc_p: float = 0.4, generic_p: float = 0.35, names: list[str] | None = None) -> dict[str, Any]:
+def gen_pool(rng: random.Random, shape: str | None = None, n_variants: int | None = None, allow_invalid: bool = True, wide_p: float = 0.4, doc_p: float = 0.4, generic_p: float = 0.35, names: list[str] | None = None, box_p: float = 0.35, swap_p: float = 0.2) -> dict[str, Any]:
 	"""Returns {'shape', 'modules': [names, index 0 = top], 'variants': {name: [ {src, imports, note} ]}, 'order': names}."""
 	shape = shape or rng.choice(sorted(SHAPES))
 	n, edges = SHAPES[shape]
@@ -178,7 +184,8 @@ def gen_pool(rng: random.Random, shape: str | None = None, n_variants: int | Non
 		# distinct class names unless aliasing is exercised
 		classes = rng.sample(CLASS_POOL, n) if n <= len(CLASS_POOL) else classes
 	alias = same_cls
-	flags = [{'with_enum': rng.random() < 0.35, 'dict_local': rng.random() < 0.4, 'wide': rng.random() < wide_p, 'doc': rng.random() < doc_p, 'generic': rng.random() < generic_p} for _ in range(n)]
+	use_box = rng.random() < box_p
+	flags = [{'with_enum': rng.random() < 0.35, 'dict_local': rng.random() < 0.4, 'wide': rng.random() < wide_p, 'doc': rng.random() < doc_p, 'generic': rng.random() < generic_p, 'box': use_box and rng.random() < 0.6} for _ in range(n)]
 	deps_of = {i: [j for (a, j) in edges if a == i] for i in range(n)}
 
 	def dep_specs(i: int, dropped: set[int] = frozenset()) -> list[dict[str, Any]]:
@@ -217,7 +224,23 @@ def gen_pool(rng: random.Random, shape: str | None = None, n_variants: int | Non
 			src = build_module(names[i], classes[i], vtype, lit, dep_specs(i, dropped), alias=alias, **kw)
 			vs.append({'src': src, 'imports': [names[j] for j in deps_of[i] if j not in dropped], 'note': note})
 		variants[names[i]] = vs
-	return {'shape': shape, 'modules': names, 'variants': variants, 'edges': [[names[a], names[b]] for a, b in edges]}
+	pool = {'shape': shape, 'modules': list(names), 'core': list(names), 'variants': variants, 'edges': [[names[a], names[b]] for a, b in edges]}
+	if use_box:
+		pool['modules'] = pool['modules'] + ['src.gbox']
+		pool['variants']['src.gbox'] = [{'src': BOX_SRC, 'imports': [], 'note': 'box'}]
+		for i in range(n):
+			if flags[i]['box']:
+				for v in variants[names[i]]:
+					v['imports'] = v['imports'] + ['src.gbox']
+				pool['edges'].append([names[i], 'src.gbox'])
+	if rng.random() < swap_p:
+		add_swap_trio(pool)
+	return pool
+
+
+def core(pool: dict[str, Any]) -> list[str]:
+	"""The generated graph proper (index 0 = top, last = leaf), without the appended helper modules (box, swap trio, twins)."""
+	return list(pool.get('core') or pool['modules'])
 
 
 def module_relpath(module: str) -> str:
@@ -241,6 +264,73 @@ def direct_imports(pool: dict[str, Any], state: dict[str, int], module: str) -> 
 	return list(pool['variants'][module][state[module]]['imports'])
 
 
+BOX_SRC = '''from collections.abc import Callable
+from typing import Generic, TypeVar
+
+T = TypeVar('T')
+
+
+class GBox(Generic[T]):
+	items: list[T]
+
+	def __init__(self) -> None:
+		self.items = []
+
+	def each(self, f: Callable[[T], None]) -> None:
+		for e in self.items:
+			f(e)
+'''
+
+SWAP_SRC = ['''class X:
+	def get(self) -> int:
+		return 1
+
+
+class Y:
+	def get(self) -> str:
+		return 'y'
+''', '''class X:
+	def get(self) -> str:
+		return 'x'
+
+
+class Y:
+	def get(self) -> int:
+		return 2
+''', '''class X:
+	def get(self) -> float:
+		return 1.5
+
+
+class Y:
+	def get(self) -> bool:
+		return True
+''']
+
+SWAP_USER = '''from src.sb import X
+from src.sc import Y
+
+
+def use_sw(k: int) -> int:
+	p = X().get()
+	q = Y().get()
+	r = p
+	s = [q]
+	return k
+'''
+
+
+def add_swap_trio(pool: dict[str, Any]) -> None:
+	"""Two sibling modules with exchangeable (byte-identical variant lists) contents and an importer of both:
+	editing both can permute contents among the files a symbol-cache identity is computed from."""
+	pool['modules'] += ['src.sa', 'src.sb', 'src.sc']
+	pool['variants']['src.sa'] = [{'src': SWAP_USER, 'imports': ['src.sb', 'src.sc'], 'note': 'swap-user'}]
+	for m in ('src.sb', 'src.sc'):
+		pool['variants'][m] = [{'src': src, 'imports': [], 'note': f'swap{n}'} for n, src in enumerate(SWAP_SRC)]
+	pool['edges'] += [['src.sa', 'src.sb'], ['src.sa', 'src.sc']]
+	pool['initial'] = {**pool.get('initial', {}), 'src.sc': 1}
+
+
 FIXED_POOL_SEEDS = [11, 12, 13, 14]
 
 
@@ -248,4 +338,4 @@ def fixed_pool(which: int = 0) -> dict[str, Any]:
 	"""Small deterministic pools for canonical short histories and enumeration passes."""
 	shapes = ['chain3', 'diamond', 'chain2', 'vee']
 	rng = random.Random(FIXED_POOL_SEEDS[which % 4])
-	return gen_pool(rng, shape=shapes[which % 4], n_variants=3, allow_invalid=False, wide_p=1.0 if which % 2 == 0 else 0.5, doc_p=1.0 if which % 2 == 0 else 0.5, generic_p=1.0 if which % 2 == 0 else 0.5)
+	return gen_pool(rng, shape=shapes[which % 4], n_variants=3, allow_invalid=False, wide_p=1.0 if which % 2 == 0 else 0.5, doc_p=1.0 if which % 2 == 0 else 0.5, generic_p=1.0 if which % 2 == 0 else 0.5, box_p=1.0 if which in (0, 3) else 0.0, swap_p=1.0 if which == 1 else 0.0)
